@@ -188,7 +188,7 @@ Proof. unfold pend_ok. intros H Hp. eapply Forall_impl; [|exact Hp]. intros a Ha
 
 Lemma step_inv c st e : inv st -> inv (fst (step c st e)).
 Proof.
-  intros Hinv. pose proof Hinv as [Hl Hd Hr Hk Hp]. destruct e as [a|a| |i order|i|src eth p hk|q]; cbn [step].
+  intros Hinv. pose proof Hinv as [Hl Hd Hr Hk Hp]. destruct e as [a|a| |i order|i|src eth p hk|q| ]; cbn [step].
   - unfold start_hunt.
     destruct (is4 (a_ip a)) eqn:E4; [exact Hinv|].
     destruct (is6 (a_ip a) && negb (is_llu (a_ip a))) eqn:E6; [exact Hinv|].
@@ -244,6 +244,7 @@ Proof.
       * eapply Forall_impl; [|exact Hp]. intros x Hx. eapply pend_ok_routers; [|exact Hx].
         cbn [routers]. intros k Hk'. apply rt_find_set_other. exact Hk'.
   - exact Hinv.
+  - constructor; cbn [fst loops routers defrouter]; auto.
 Qed.
 
 Lemma reach_inv c s0 st : inv s0 -> reach c s0 st -> inv st.
@@ -267,7 +268,7 @@ Lemma step_sent c st e l : inv st -> snd (step c st e) = ONAs l ->
   exists i lp ip rest, e = Send i /\ nth_error (loops st) i = Some lp /\ l_pending lp = ip :: rest /\
     l = [forge c (l_dst lp) ip] /\ forged_shape c st (forge c (l_dst lp) ip).
 Proof.
-  intros Hinv Hs. destruct e as [a|a| |i order|i|src eth p hk|q]; cbn [step] in Hs.
+  intros Hinv Hs. destruct e as [a|a| |i order|i|src eth p hk|q| ]; cbn [step] in Hs.
   - unfold start_hunt in Hs. destruct (is4 _); [discriminate|]. destruct (is6 _ && _); [discriminate|].
     destruct (al_has _ _); discriminate.
   - unfold stop_hunt in Hs. destruct (_ && _); discriminate.
@@ -292,6 +293,7 @@ Proof.
     | snd (match ?x with _ => _ end) = _ => destruct x; simpl in Hs; try discriminate
     | snd (let '(_, _) := ?x in _) = _ => destruct x; simpl in Hs; try discriminate
     end.
+  - discriminate Hs.
   - discriminate Hs.
 Qed.
 
@@ -581,7 +583,7 @@ Qed.
 
 Lemma step_uniq c st e : uniq (hunt st) -> uniq (hunt (fst (step c st e))).
 Proof.
-  intros H. destruct e as [a|a| |i order|i|src eth p hk|q]; cbn [step].
+  intros H. destruct e as [a|a| |i order|i|src eth p hk|q| ]; cbn [step].
   - unfold start_hunt. destruct (is4 (a_ip a)); [exact H|].
     destruct (is6 (a_ip a) && negb (is_llu (a_ip a))); [exact H|].
     destruct (al_has (hunt st) (a_mac a)) eqn:E; [exact H|]. cbn [fst hunt]. unfold al_add. rewrite E.
@@ -596,6 +598,7 @@ Proof.
     destruct (negb hk); [exact H|].
     destruct (ra_options p); try exact H.
     destruct (rt_find (routers st) src); exact H.
+  - exact H.
   - exact H.
 Qed.
 
@@ -623,7 +626,7 @@ Lemma step_keeps_unhunted c st e mac :
   al_has (hunt st) mac = false -> (forall a, e = StartHunt a -> bytes_eqb (a_mac a) mac = false) ->
   al_has (hunt (fst (step c st e))) mac = false.
 Proof.
-  intros H Hs. destruct e as [a|a| |i order|i|src eth p hk|q]; cbn [step].
+  intros H Hs. destruct e as [a|a| |i order|i|src eth p hk|q| ]; cbn [step].
   - unfold start_hunt. destruct (is4 (a_ip a)); [exact H|].
     destruct (is6 (a_ip a) && negb (is_llu (a_ip a))); [exact H|].
     destruct (al_has (hunt st) (a_mac a)) eqn:E; [exact H|]. cbn [fst hunt]. unfold al_add. rewrite E.
@@ -639,12 +642,13 @@ Proof.
     destruct (ra_options p); try exact H.
     destruct (rt_find (routers st) src); exact H.
   - exact H.
+  - exact H.
 Qed.
 
 (* C14_stop, Close part: once closed, no loop pass emits anything, whatever happens afterwards *)
 Lemma step_closed c st e : closed st = true -> closed (fst (step c st e)) = true.
 Proof.
-  intros H. destruct e as [a|a| |i order|i|src eth p hk|q]; cbn [step].
+  intros H. destruct e as [a|a| |i order|i|src eth p hk|q| ]; cbn [step].
   - unfold start_hunt. destruct (is4 (a_ip a)); [exact H|].
     destruct (is6 (a_ip a) && negb (is_llu (a_ip a))); [exact H|].
     destruct (al_has (hunt st) (a_mac a)); exact H.
@@ -657,6 +661,7 @@ Proof.
     destruct (negb hk); [exact H|].
     destruct (ra_options p); try exact H.
     destruct (rt_find (routers st) src); exact H.
+  - exact H.
   - exact H.
 Qed.
 
@@ -680,7 +685,7 @@ Definition not_ra_from (k : bytes) (e : event) : Prop :=
 Lemma step_keeps_router c st e k : not_ra_from k e ->
   rt_find (routers (fst (step c st e))) k = rt_find (routers st) k.
 Proof.
-  intros H. destruct e as [a|a| |i order|i|src eth p hk|q]; cbn [step].
+  intros H. destruct e as [a|a| |i order|i|src eth p hk|q| ]; cbn [step].
   - unfold start_hunt. destruct (is4 (a_ip a)); [reflexivity|].
     destruct (is6 (a_ip a) && negb (is_llu (a_ip a))); [reflexivity|].
     destruct (al_has (hunt st) (a_mac a)); reflexivity.
@@ -693,6 +698,7 @@ Proof.
     destruct (negb hk); [reflexivity|].
     destruct (ra_options p); try reflexivity.
     destruct (rt_find (routers st) src); cbn [fst routers]; apply rt_find_set_ne; exact H.
+  - reflexivity.
   - reflexivity.
 Qed.
 
